@@ -135,7 +135,9 @@ PROPS = {
     'C05': dict(
         title='Hayson JSON conforms to the Project Haystack JSON encoding',
         verus=[('u_getters', [r'^parse_ref$', r'^parse_symbol$', r'^parse_uri$', r'^parse_coord$', r'^Dict::get_str$', r'^Dict::get_num$']),
-               ('u_jenc', [r'::serialize$', r'^jv_'])],
+               ('u_jenc', [r'::serialize$', r'^jv_']),
+               ('u_jdec', [r'^JsonValueDecoderVisitor::visit_map$', r'^lemma_members_by_membership$', r'^lemma_kind_by_membership$', r'^lemma_no_kind$',
+                           r'^lemma_perm_same_reading$', r'^lemma_object_members_in_any_order$'])],
         kani=[dict(harness='k_json_visit_numbers', klass='complete', schema='raw', family='json-visit', target='JsonValueDecoderVisitor::visit_{i8..u64,f64}'),
               dict(harness='k_json_visit_bool_null', klass='complete', schema=['bool'], family=None, target='JsonValueDecoderVisitor::visit_bool/visit_unit'),
               dict(harness='k_json_scalar_traces', klass='complete', schema=['u8', 'f64', 'f64'], family=None, target='Serialize for Marker/Na/Remove/Coord/Symbol/Uri/Ref/XStr'),
@@ -150,12 +152,15 @@ PROPS = {
                     'when present) and rows), and the real body of every Serialize impl -- Marker, Na, Remove, Ref, Uri, Symbol, Date, Time, DateTime, '
                     'Coord, XStr, Column, Dict, Grid and the Value dispatcher with its list loop -- is proved to hand exactly that tree to the '
                     'serializer, member by member and in order, against a model of serde\'s data model (rule R20). '
+                    'Reader side, objects (Verus, u_jdec): the real visit_map reads the members one by one into a map and remembers the text of _kind; what it '
+                    'returns is the value denoted by that kind and that member map (hs_decode), and lemma_object_members_in_any_order shows that for an object '
+                    'with distinct member names every order of the members gives the same kind and the same map, hence the same value. '
                     'Proof (Kani/CBMC) of the writer side for scalars: the serializer call trace of Marker, NA, Remove, Coord (all f64), '
                     'Symbol, Uri, Ref (with and without dis), XStr and Number (all f64, with and without unit) uses exactly the "_kind" '
                     'values and member names of the Hayson table (typed into the harness from the specification), in a map of the stated size. '
                     'Reader side (Verus, real bodies): parse_ref / parse_symbol / parse_uri / parse_coord succeed exactly when the members the '
                     'table requires (val; lat and lng) are present with the right kind, and build the value from exactly those members (dis optional).'),
-        not_decided=('Reader side: member-order independence of visit_map (generic over serde::de::MapAccess); parse_xstr (this Verus crashes on a local named r#type), parse_number (closures capturing the dict), parse_date/time/datetime (chrono), parse_grid (iterator adapters); '
+        not_decided=('Reader side: the per-kind decoders behind visit_map other than ref/symbol/uri/coord are uninterpreted functions of the member map; objects with a repeated member name; parse_xstr (this Verus crashes on a local named r#type), parse_number (closures capturing the dict), parse_date/time/datetime (chrono), parse_grid (iterator adapters); '
                      'Date/Time/DateTime text (chrono, uninterpreted); JSON number spellings and string escaping (serde_json); Number::serialize is '
                      'trusted in the Verus unit and decided by the Kani harnesses; the model serializer (what serialize_map / serialize_entry / '
                      'serialize_seq / end do) is an assumption about serde; Kani payload strings are concrete 2-byte strings.'),
